@@ -81,6 +81,14 @@ def odd_spellings() -> list[dict[str, Any]]:
         "{{ 1.0e999 }}", "{{ -1.0e999 }}", "{{ 1.5e400 | size }}", "{% assign f = 2.5e999 %}{{ f }}{% if f > 1 %}big{% endif %}", "{{ 1e999 }}", "{{ 1.0e-999 }}",
         "{{ 2 }}{{ 2.0 }}{{ 15 | divided_by: 7 }}{{ 15 | divided_by: 7.0 }}{% for i in (1..3) limit: 3 %}{{ i }}{% endfor %}{{ 3.0 | plus: 3 }}{{ 0 | default: 'd' }}{{ 0.0 | default: 'd' }}",
     ]
+    # macro signatures x call argument forms (positional count x keyword subsets, declared and undeclared names)
+    body = "[{{ a }}|{{ b }}|{{ c }}|{{ args | join: ',' }}|{% for kv in kwargs %}{{ kv[0] }}={{ kv[1] }};{% endfor %}]"
+    for sig in ("a", "a, b: 'B'", "a, b: 'B', c: 'C'", "a: 'A', b: 'B', c: g"):
+        for npos in range(4):
+            pos = ["g", "'p2'", "3"][:npos]
+            for mask in range(8):
+                kws = [kw for i, kw in enumerate(("b: 'kb'", "c: xs[0]", "extra: 1")) if mask >> i & 1]
+                srcs.append("{% macro m " + sig + " %}" + body + "{% endmacro %}{% call m " + ", ".join(pos + kws) + " %}")
     # empty branches whose tags carry whitespace control: dropping the tag drops its trimming
     for wc in ("-", "~", ""):
         srcs += [
@@ -207,7 +215,7 @@ def check_case(case: dict[str, Any], res: ShardResult | None) -> list[tuple[str,
     if res is not None:
         res.evaluations += len(data)
         res.outcomes.update(h64(list(o)) for o in base)
-    prev_src, gen_ok = src, True
+    prev_src, gen_ok, first_s = src, True, src
     tcur = t0
     for gen in (1, 2, 3):
         try:
@@ -245,9 +253,32 @@ def check_case(case: dict[str, Any], res: ShardResult | None) -> list[tuple[str,
                     )
                 )
                 break
+        if gen == 1:
+            first_s = s
         prev_src, tcur = s, tnext
     if res is not None and (str(t0) != src or any(o[0] == "ok" and o[1] for o in base)):
         res.nontrivial.add(h64(src))
+    # serialising is an observation, not an operation: after str(t0) the same object still behaves as it did, and a
+    # second str(t0) still reparses to that behaviour (otherwise one of the two serialisations misdescribes t0)
+    if gen_ok:
+        for d, b in zip(data, base):
+            o = impl.outcome(t0.render, **d)
+            if res is not None:
+                res.evaluations += 1
+            if o != b:
+                out.append(("C12:behaviour-differs-after-str", {"render": b, "data": d}, {"render after str(template)": o}))
+                break
+        try:
+            s_again = str(t0)
+            if s_again != first_s:
+                t_again = env.from_string(s_again, name="main")
+                for d, b in zip(data, base):
+                    o = impl.outcome(t_again.render, **d)
+                    if o != b:
+                        out.append(("C12:second-str-differs", {"render": b, "data": d, "first": first_s}, {"render": o, "second": s_again}))
+                        break
+        except Exception as e:  # noqa: BLE001
+            out.append((f"C12:second-str-fails:{type(e).__name__}", {"first": first_s}, repr(e)))
     # pickle
     if case.get("xproc"):
         t_x, err = _xproc_template(case)
